@@ -131,12 +131,14 @@ func (s *Server) Serve(l net.Listener) error {
 }
 
 func (s *Server) handleConn(c *Conn) error {
+	verifEvent(c, "open")
 	s.locker.Lock()
 	s.conns[c] = struct{}{}
 	s.locker.Unlock()
 
 	defer func() {
 		c.Close()
+		verifEventAsync(c, "end")
 
 		s.locker.Lock()
 		delete(s.conns, c)
@@ -159,14 +161,17 @@ func (s *Server) handleConn(c *Conn) error {
 
 	for {
 		line, err := c.readLine()
+		verifEvent(c, "line", line, err)
 		if err == nil {
 			cmd, arg, err := parseCmd(line)
 			if err != nil {
 				c.protocolError(501, EnhancedCode{5, 5, 2}, "Bad command")
+				verifEvent(c, "handled")
 				continue
 			}
 
 			c.handle(cmd, arg)
+			verifEvent(c, "handled")
 		} else {
 			if err == io.EOF || errors.Is(err, net.ErrClosed) {
 				return nil
@@ -246,6 +251,7 @@ func (s *Server) Close() error {
 	case <-s.done:
 		return ErrServerClosed
 	default:
+		verifGate(nil, "close-after-check")
 		close(s.done)
 	}
 
@@ -277,6 +283,7 @@ func (s *Server) Shutdown(ctx context.Context) error {
 	case <-s.done:
 		return ErrServerClosed
 	default:
+		verifGate(nil, "close-after-check")
 		close(s.done)
 	}
 
